@@ -166,8 +166,23 @@ func (c CertificateContent) HashSum() []byte {
 	c.Profile = ""
 	c.Alias = ""
 
+	//the json of an extension config does not say which extension it is,
+	//so its oid is hashed along with it
+	type hashedExtension struct {
+		Oid    asn1.ObjectIdentifier
+		Config ExtensionConfig
+	}
+	type hashView struct {
+		CertificateContent
+		Extensions []hashedExtension
+	}
+	view := hashView{CertificateContent: c, Extensions: make([]hashedExtension, len(c.Extensions))}
+	for i, ext := range c.Extensions {
+		view.Extensions[i] = hashedExtension{Oid: ext.Oid(), Config: ext}
+	}
+
 	//marshal c to json
-	b, err := json.Marshal(c)
+	b, err := json.Marshal(view)
 	if err != nil {
 		panic("can't marshal struct to json")
 	}
